@@ -77,7 +77,7 @@ func main() {
 		sort.Strings(names)
 		for _, n := range names {
 			c := w.contracts[n]
-			_, bound := w.funcs[n]
+			bound := w.funcOf(n) != nil
 			kind := "verify"
 			if c.Assumed {
 				kind = "assumed"
@@ -101,7 +101,7 @@ func main() {
 			if !match {
 				continue
 			}
-			fn := w.funcs[n]
+			fn := w.funcOf(n)
 			if fn == nil {
 				fmt.Printf("UNBOUND %s\n", n)
 				continue
